@@ -784,6 +784,10 @@ static int run_case(uint64_t cs, int nframes, const char *modname)
 	speed0 = ctx->p.speed;
 	printf("B case %llu %s rate=%d fmt=%d voices=%d tfmode=%d %s\n", (unsigned long long)cs, modname, rate, format,
 	       voices, tf_mode, desc);
+	/* if the library aborts inside this case the buffered stdout may be lost: name the case on stderr */
+	fprintf(stderr, "CASE case %llu %s rate=%d fmt=%d voices=%d tfmode=%d %s\n", (unsigned long long)cs, modname, rate,
+		format, voices, tf_mode, desc);
+	fflush(stdout);
 	ret = xmp_start_player(c, rate, format);
 	if (ret < 0) {
 		printf("N start_failed 1\nZ\n");
